@@ -751,6 +751,8 @@ PROLOGUES = [
     [("req", 0, "obj", (1, 2)), ("req", 0, "props", (1,)), ("req", 0, "obj", (1,))],
     # object kept by full ID only (moved to a handle nothing tracks)
     [("ann", "comp", 0, ((0, 1, 0), (1, 2, 1))), ("ann", "full", 2, ((0, 1, 0),))],
+    # an avatar that sits down in the very update that moves it to a handle nothing tracks
+    [("ann", "full", 0, ((4, 3, 0), (0, 1, 0))), ("ann", "full", 2, ((4, 3, 1),))],
 ]
 HISTORY = st.tuples(st.sampled_from(["client", "proxy", "proxy"]), st.integers(0, 7), st.sampled_from(PROLOGUES),
                     st.lists(st.one_of(OP, OP, OP, st.tuples(st.just("sclear"))), min_size=3, max_size=40)
